@@ -95,6 +95,7 @@ type X struct {
 	ctl      chan struct{}
 	killed   bool
 	draining bool // choices no longer recorded, default choice taken
+	stopNow  bool // pruned: stop at the next quiescence
 	end      string
 	endMsg   string
 
@@ -123,6 +124,8 @@ type Opts struct {
 	SpinLimit  int64
 	Horizon    time.Duration
 	AdvanceMax time.Duration // longest stall an ADVANCE alternative may cause
+	DelayBound bool          // every non-default scheduling choice costs 1 (delay bounding), not only preemptions
+	Policy     int           // default order of runnable threads: 0 ascending ids, 1 descending ids
 }
 
 func (o *Opts) defaults() {
@@ -179,6 +182,17 @@ func self() (*X, *Thread) {
 		}
 	}
 	return x, nil
+}
+
+// CurrentID returns the id of the calling managed thread, or -1.
+//
+//go:norace
+func CurrentID() int {
+	_, t := self()
+	if t == nil {
+		return -1
+	}
+	return t.ID
 }
 
 // Active reports whether the calling goroutine is a managed thread of a live
@@ -412,28 +426,109 @@ func SpinGuard(limit int64, f func()) (spun bool) {
 	return s
 }
 
-// Select is the scheduling point in front of a rewritten select with n
-// communication clauses. It returns the clause to try first.
+// SelectPoint is the scheduling point in front of a rewritten select. It
+// reports whether the caller is a managed thread (probing is only safe then).
 //
 //go:norace
-func Select(n int) int {
+func SelectPoint() bool {
+	x, t := self()
+	if t == nil || x.killed {
+		return false
+	}
+	checkBaton(x, t, "select")
+	park(x, t, OpSelect, nil)
+	t.selIdx = -1
+	t.status = stInOp
+	return true
+}
+
+// Probe results.
+const (
+	NotReady = 0
+	Ready    = 1
+	Maybe    = 2
+)
+
+// ProbeRecv tells, without consuming anything, whether a receive clause is
+// ready - possible for buffered channels (len/cap; an empty buffered channel
+// can only be received from if it is closed) and for Done()-style channels that
+// are never sent on. Everything else is Maybe.
+//
+//go:norace
+func ProbeRecv[T any](active bool, c <-chan T, doneLike bool) int {
+	if !active {
+		return Maybe
+	}
+	if c == nil {
+		return NotReady
+	}
+	if cap(c) > 0 || doneLike {
+		if len(c) > 0 {
+			return Ready
+		}
+		select {
+		case _, ok := <-c:
+			if ok {
+				if x := cur; x != nil {
+					x.fatal("probe consumed a value from a channel assumed to be close-only or empty")
+				}
+			}
+			return Ready
+		default:
+			return NotReady
+		}
+	}
+	return Maybe
+}
+
+//go:norace
+func ProbeSend[T any](active bool, c chan<- T) int {
+	if !active {
+		return Maybe
+	}
+	if c == nil {
+		return NotReady
+	}
+	if cap(c) > 0 {
+		if len(c) < cap(c) {
+			return Ready
+		}
+		return NotReady
+	}
+	return Maybe
+}
+
+// SelectChoose asks the explorer which clause to try first, among the clauses
+// that are ready or may be ready.
+//
+//go:norace
+func SelectChoose(active bool, st ...int) int {
+	if !active {
+		return 0
+	}
 	x, t := self()
 	if t == nil || x.killed {
 		return 0
 	}
-	checkBaton(x, t, "select")
-	park(x, t, OpSelect, nil)
-	k := 0
-	t.selIdx = -1
-	if n > 1 {
-		k = x.choose('c', n, t.ID, OpSelect, "")
-		t.selIdx = x.npoints - 1
-		if x.draining {
-			t.selIdx = -1
+	var cand [16]int
+	nc := 0
+	for i, s := range st {
+		if s != NotReady && nc < len(cand) {
+			cand[nc] = i
+			nc++
 		}
 	}
-	t.status = stInOp
-	return k
+	if nc == 0 {
+		return 0
+	}
+	if nc == 1 {
+		return cand[0]
+	}
+	c := x.choose('c', nc, t.ID, OpSelect, "")
+	if !x.draining {
+		t.selIdx = x.npoints - 1
+	}
+	return cand[c]
 }
 
 // AfterSelect is called once the select has resolved; fired is the clause
@@ -486,6 +581,7 @@ func (x *X) prune(why string) {
 		x.endMsg = why
 	}
 	x.draining = true
+	x.stopNow = true
 }
 
 // choose consumes the next choice: from the prefix while replaying, 0 after.
@@ -581,7 +677,7 @@ func (x *X) loop() {
 			}
 			x.running = nil
 		}
-		if x.end == EndError || x.end == EndSpin {
+		if x.end == EndError || x.end == EndSpin || x.stopNow {
 			return
 		}
 		alive, native := 0, 0
@@ -590,7 +686,11 @@ func (x *X) loop() {
 			cands[nc] = l
 			nc++
 		}
-		for i := 0; i < x.nthreads; i++ {
+		for ii := 0; ii < x.nthreads; ii++ {
+			i := ii
+			if x.opts.Policy == 1 {
+				i = x.nthreads - 1 - ii
+			}
 			t := x.threads[i]
 			if t.status == stDone {
 				continue
@@ -661,7 +761,7 @@ func (x *X) loop() {
 			c = x.choose('s', n, -1, 0, "")
 			if !x.draining {
 				p := &x.points[x.npoints-1]
-				p.Pre = lastEnabled
+				p.Pre = lastEnabled || x.opts.DelayBound
 				p.Adv = adv
 			}
 		}
@@ -674,7 +774,7 @@ func (x *X) loop() {
 			continue
 		}
 		t := cands[c]
-		if lastEnabled && c != 0 {
+		if (lastEnabled || x.opts.DelayBound) && c != 0 {
 			x.preempts++
 		}
 		if !x.draining && n > 1 {
